@@ -131,7 +131,7 @@ fn run(ctx: &Ctx, rep: &Report) {
             return;
         }
     };
-    let n: u64 = ctx.tier.pick(64, 2500);
+    let n: u64 = ctx.tier.pick(64, 4000);
     let base = ctx.work_dir("build");
     par_for(ctx.threads, n, 1, |i| {
         let mut rng = Rng::for_case(ctx.seed, "C08", i);
